@@ -1,34 +1,119 @@
 use crate::hc::restrictions::{CheckRestrictions, Restrictions};
+use crate::hc::multi_ref::MultiRef;
+use crate::model::field::{as_rust_type, RustFieldType, OtherRustType};
+use crate::model::doc::RustDocument;
 use std::rc::Rc;
 
-fn any_opt_i32() -> Option<i32> { if kani::any() { Some(kani::any()) } else { None } }
+pub fn fixed_random_state() -> std::hash::RandomState {
+    unsafe { std::mem::transmute::<(u64, u64), std::hash::RandomState>((1u64, 2u64)) }
+}
+pub fn stub_pascal(s: &str) -> String { let mut r = String::from("P:"); r.push_str(s); r }
+pub fn stub_format(_a: std::fmt::Arguments<'_>) -> String { String::new() }
 
-fn spec_i(v: i128, r: &Restrictions) -> bool {
-    r.min_inclusive.map_or(true, |m| v >= m as i128)
-        && r.max_inclusive.map_or(true, |m| v <= m as i128)
-        && r.min_exclusive.map_or(true, |m| v > m as i128)
-        && r.max_exclusive.map_or(true, |m| v < m as i128)
+// ---- C02: builtin table, all strings <= 12 bytes without ':'
+#[kani::proof]
+#[kani::unwind(14)]
+#[kani::stub(std::hash::RandomState::new, fixed_random_state)]
+#[kani::stub(inflector::cases::pascalcase::to_pascal_case, stub_pascal)]
+fn c02_builtin_table() {
+    let doc = RustDocument::empty();
+    let b: [u8; 12] = kani::any();
+    let len: usize = 11;
+    for i in 0..12 { kani::assume(b[i] >= 0x21 && b[i] < 0x7f && b[i] != b':'); }
+    let s = unsafe { std::str::from_utf8_unchecked(&b[..len]) };
+    let t = as_rust_type(s, &doc);
+    let expect_long = s == "long";
+    assert!((t == RustFieldType::I64) == expect_long);
+    if s == "unsignedInt" { assert!(t == RustFieldType::U32); }
+    if s == "integer" { assert!(t == RustFieldType::I32); }
+    std::mem::forget(t); std::mem::forget(doc);
 }
 
+// ---- C06: string length facets over symbolic UTF-8 (alphabet: ASCII printable, é)
 #[kani::proof]
-#[kani::unwind(3)]
-fn c06_i32_all() {
-    let r = Restrictions { min_inclusive: any_opt_i32(), max_inclusive: any_opt_i32(), min_exclusive: any_opt_i32(), max_exclusive: any_opt_i32(), ..Default::default() };
-    let v: i32 = kani::any();
-    let expect = spec_i(v as i128, &r);
-    let rc = Rc::new(r);
-    std::mem::forget(rc.clone());
-    let res = v.check_restrictions(Some(rc));
+#[kani::unwind(8)]
+#[kani::stub(alloc::fmt::format, stub_format)]
+fn c06_string_len() {
+    let b: [u8; 6] = kani::any();
+    let len: usize = 3;
+    // well-formedness over the alphabet {ASCII printable, C3 A9}
+    let mut i = 0; let mut chars = 0usize;
+    while i < len {
+        if b[i] == 0xC3 { kani::assume(i + 1 < len && b[i + 1] == 0xA9); i += 2; }
+        else { kani::assume(b[i] >= 0x20 && b[i] < 0x7f); i += 1; }
+        chars += 1;
+    }
+    let s = unsafe { String::from_utf8_unchecked(b[..len].to_vec()) };
+    let minl: Option<usize> = if kani::any() { Some(kani::any()) } else { None };
+    let maxl: Option<usize> = if kani::any() { Some(kani::any()) } else { None };
+    let exl: Option<usize> = if kani::any() { Some(kani::any()) } else { None };
+    let r = Rc::new(Restrictions { min_length: minl, max_length: maxl, length: exl, ..Default::default() });
+    std::mem::forget(r.clone());
+    let res = s.check_restrictions(Some(r));
+    let got = res.is_ok();
+    std::mem::forget(res); std::mem::forget(s);
+    let want = minl.map_or(true, |m| chars >= m) && maxl.map_or(true, |m| chars <= m) && exl.map_or(true, |m| chars == m);
+    assert!(got == want);
+    kani::cover!(got); kani::cover!(!got);
+}
+
+// ---- C06: numeric text
+#[kani::proof]
+#[kani::unwind(8)]
+#[kani::stub(alloc::fmt::format, stub_format)]
+fn c06_string_num() {
+    let b: [u8; 4] = kani::any();
+    let len: usize = 3;
+    for i in 0..4 { kani::assume((b[i] >= b'0' && b[i] <= b'9') || b[i] == b'-' || b[i] == b'+' || b[i] == b'a'); }
+    let s = unsafe { String::from_utf8_unchecked(b[..len].to_vec()) };
+    let mi: Option<i32> = if kani::any() { Some(kani::any()) } else { None };
+    kani::assume(mi.is_some());
+    let r = Rc::new(Restrictions { min_inclusive: mi, ..Default::default() });
+    std::mem::forget(r.clone());
+    let res = s.check_restrictions(Some(r));
     let got = res.is_ok();
     std::mem::forget(res);
-    assert!(got == expect);
+    // reference: [+-]?[0-9]+ and value >= min
+    let bytes = &b[..len];
+    let (neg, digits) = match bytes.first() { Some(b'-') => (true, &bytes[1..]), Some(b'+') => (false, &bytes[1..]), _ => (false, bytes) };
+    let mut ok = !digits.is_empty(); let mut v: i128 = 0;
+    for d in digits { if *d < b'0' || *d > b'9' { ok = false; } else { v = v * 10 + (*d - b'0') as i128; } }
+    if neg { v = -v; }
+    let want = ok && v >= mi.unwrap() as i128;
+    std::mem::forget(s);
+    assert!(got == want);
 }
 
+// ---- C19: forwarding of check_restrictions and clone sharing with a probe type
+static mut LOG: [u8; 8] = [0; 8];
+static mut NLOG: usize = 0;
+fn log(x: u8) { unsafe { if NLOG < 8 { LOG[NLOG] = x; } NLOG += 1; } }
+#[derive(Clone, Debug, Default)]
+struct Probe { tag: u8, verdict: bool }
+static mut SEEN_RC: usize = 0;
+impl CheckRestrictions for Probe {
+    fn check_restrictions(&self, r: Option<Rc<Restrictions>>) -> crate::hc::error::SoapResult<()> {
+        log(self.tag);
+        unsafe { SEEN_RC = r.as_ref().map_or(0, |x| Rc::as_ptr(x) as usize); }
+        std::mem::forget(r);
+        if self.verdict { Ok(()) } else { Err(crate::hc::error::SoapError::Restriction(String::new())) }
+    }
+}
 #[kani::proof]
-fn c06_i64_none() {
-    let v: i64 = kani::any();
-    let got = v.check_restrictions(None);
-    let ok = got.is_ok();
-    std::mem::forget(got);
-    assert!(ok);
+#[kani::unwind(4)]
+fn c19_check_and_clone() {
+    let p = Probe { tag: kani::any(), verdict: kani::any() };
+    let tag = p.tag; let verdict = p.verdict;
+    let w = MultiRef::new(p);
+    let r = Rc::new(Restrictions::default());
+    std::mem::forget(r.clone());
+    let addr = Rc::as_ptr(&r) as usize;
+    let pass: bool = kani::any();
+    let res = w.check_restrictions(if pass { Some(r) } else { std::mem::forget(r); None });
+    let ok = res.is_ok(); std::mem::forget(res);
+    assert!(ok == verdict);
+    unsafe { assert!(NLOG == 1 && LOG[0] == tag); assert!(SEEN_RC == if pass { addr } else { 0 }); }
+    let w2 = w.clone();
+    assert!(std::sync::Arc::ptr_eq(&*w, &*w2));
+    std::mem::forget(w); std::mem::forget(w2);
 }
